@@ -271,3 +271,55 @@ def iter_vectors(maxlen, alphabet=(0, 1, 2, 3, 7)):
     for ln in range(maxlen + 1):
         for v in itertools.product(alphabet, repeat=ln):
             yield list(v)
+
+
+# ---------------------------------------------------------------- nogood store histories
+def gen_ng_case(rng, nmax=6, nadds=8, nq=6):
+    n = 2 + rng.below(nmax - 1)
+    mode = rng.pick(["none", "equiv", "subsume"])
+    lines = ["n %d" % n, "mode %s" % mode]
+    added = []
+
+    def rand_ng(minlen=1):
+        while True:
+            g = [rng.pick("TFuu") for _ in range(n)]
+            if sum(1 for x in g if x != "u") >= minlen:
+                return "".join(g)
+
+    def derived():
+        base = list(rng.pick(added))
+        k = rng.below(4)
+        if k == 0:      # duplicate
+            pass
+        elif k == 1:    # superset
+            for i in range(n):
+                if base[i] == "u" and rng.chance(1, 2):
+                    base[i] = rng.pick("TF")
+        elif k == 2:    # subset
+            act = [i for i in range(n) if base[i] != "u"]
+            if len(act) > 1:
+                base[rng.pick(act)] = "u"
+        else:           # flip one literal
+            act = [i for i in range(n) if base[i] != "u"]
+            i = rng.pick(act)
+            base[i] = "T" if base[i] == "F" else "F"
+        return "".join(base)
+
+    ops = rng.below(nadds) + 1
+    for _ in range(ops):
+        g = derived() if added and rng.chance(3, 5) else rand_ng()
+        added.append(g)
+        lines.append("add " + g)
+        if rng.chance(1, 3):
+            lines.append("concl " + "".join(rng.pick("TFuuu") for _ in range(n)))
+    for _ in range(1 + rng.below(nq)):
+        k = rng.below(10)
+        i = "".join(rng.pick("TFuuu") for _ in range(n))
+        if k < 6:
+            lines.append("concl " + i)
+        elif k < 9:
+            lines.append("closure " + i)
+        else:
+            lines.append("conclude %s %s" % (rng.pick(added), i))
+    lines.append("dump")
+    return lines, {"n": n, "mode": mode}
